@@ -175,6 +175,8 @@ def lower_hook_in_sync():
 
 
 def run(ctx):
+    import gc
+    gc.disable()        # hundreds of MB of acyclic parsed dumps: generational collections only rescan them
     _viol = ctx.violation
 
     seen_gen_keys = set()
@@ -230,7 +232,7 @@ def run(ctx):
     hand = [("hand/" + n, s) for n, s in c13progs.PROGRAMS] if only != "gen" else []
     # generated family (lib/c13gen.py): "general" programs for the passes of package ir and the DXIL inlining step,
     # loop-free struct-free ones for all passes including the DXIL optimisation stages
-    n_general, n_loopfree = (0, 0) if only == "hand" else ctx.scale((36, 18), (400, 200))
+    n_general, n_loopfree = (0, 0) if only == "hand" else ctx.scale((48, 24), (400, 200))
     env_n = os.environ.get("VERIF_C13_GEN")
     if env_n:
         n_general, n_loopfree = [int(x) for x in env_n.split(",")]
@@ -534,6 +536,14 @@ def run(ctx):
                               files={"input.wgsl": case["src"], "before.json": json.dumps(before), "after.json": json.dumps(after),
                                      "inputs.json": json.dumps({"ep": epi, "globals": gl, "args": args, "fuel": GEN_FUEL})},
                               key="gen:diff:stage:dce:%s" % cause)
+                continue
+        if p == "stage:mem2reg":
+            cause = c13gen.mem2reg_cause(before, after)
+            if cause:
+                ctx.violation("pass stage:mem2reg changes the behaviour of generated program %s (%s): %s" % (name, cause, what),
+                              files={"input.wgsl": case["src"], "before.json": json.dumps(before), "after.json": json.dumps(after),
+                                     "inputs.json": json.dumps({"ep": epi, "globals": gl, "args": args, "fuel": GEN_FUEL})},
+                              key="gen:diff:stage:mem2reg:%s" % cause)
                 continue
         if p in reported_pass:
             continue          # one report per pass: the first disagreeing program (in program order) stands for the others
